@@ -41,18 +41,15 @@ func MkBlob(b []byte) Blob {
 }
 
 // GenData produces size bytes of the given class: 0 random, 1 zeros, 2 text.
+// Compressible classes carry 8 random bytes at the start of every 512-byte
+// stretch so that any two blobs (and any two slices of them) differ.
 func GenData(rng *rand.Rand, size int, class int) []byte {
 	b := make([]byte, size)
 	switch class {
 	case 0:
 		rng.Read(b)
+		return b
 	case 1:
-		// zeros, but unique through a short random prefix
-		if size >= 8 {
-			rng.Read(b[:8])
-		} else {
-			rng.Read(b)
-		}
 	default:
 		words := []string{"bazel ", "remote ", "cache ", "action ", "digest ", "blob\n"}
 		i := 0
@@ -60,9 +57,13 @@ func GenData(rng *rand.Rand, size int, class int) []byte {
 			w := words[rng.Intn(len(words))]
 			i += copy(b[i:], w)
 		}
-		if size >= 8 {
-			rng.Read(b[:8])
+	}
+	for i := 0; i < size; i += 512 {
+		end := i + 8
+		if end > size {
+			end = size
 		}
+		rng.Read(b[i:end])
 	}
 	return b
 }
@@ -234,11 +235,21 @@ func RunSeq(cfg SeqConfig) (*SeqResult, error) {
 	}
 
 	for i := 0; i < cfg.Ops; i++ {
+		// keys this operation hit locally or stored: the property counts each as a use
+		var used []string
+		use := func(kind cache.EntryKind, hash string) {
+			if proxy == nil { // with a backend a hit need not be a local one
+				used = append(used, cache.LookupKey(kind, hash))
+			}
+		}
 		switch k := rng.Intn(20); {
 		case k < 6: // good CAS upload
 			b := pool[rng.Intn(len(pool))]
 			err := c.Put(ctx, cache.CAS, b.Hash, int64(len(b.Data)), bytes.NewReader(b.Data))
 			record("PutCAS", b.Hash[:8], int64(len(b.Data)), errStr(err))
+			if err == nil && len(b.Data) > 0 {
+				use(cache.CAS, b.Hash)
+			}
 			if err == nil && int64(len(b.Data)) <= cfg.MaxSize/2 {
 				// accepted and fits: present immediately afterwards (C05)
 				if ok, _ := c.Contains(ctx, cache.CAS, b.Hash, int64(len(b.Data))); !ok && proxy == nil {
@@ -293,6 +304,7 @@ func RunSeq(cfg SeqConfig) (*SeqResult, error) {
 				record("Put"+kind.String(), h[:8], int64(sz), errStr(err))
 				if err == nil {
 					acVal[cache.LookupKey(kind, h)] = v
+					use(kind, h)
 				}
 			}
 		case k < 15: // read
@@ -319,6 +331,7 @@ func RunSeq(cfg SeqConfig) (*SeqResult, error) {
 				data, rerr := io.ReadAll(rc)
 				_ = rc.Close()
 				r = "hit"
+				use(cache.CAS, b.Hash)
 				if rerr != nil {
 					r = "hit-readerr"
 				} else if !zst {
@@ -349,6 +362,7 @@ func RunSeq(cfg SeqConfig) (*SeqResult, error) {
 				data, _ := io.ReadAll(rc)
 				_ = rc.Close()
 				r = "hit"
+				use(kind, h)
 				if want, ok := acVal[cache.LookupKey(kind, h)]; ok && proxy == nil && !bytes.Equal(data, want) {
 					viol("C07", "AC/RAW read of %s returned %d bytes, last stored value has %d", h[:8], len(data), len(want))
 				}
@@ -364,14 +378,29 @@ func RunSeq(cfg SeqConfig) (*SeqResult, error) {
 			}
 			ok, _ := c.Contains(ctx, cache.CAS, b.Hash, size)
 			record("Contains", b.Hash[:8], size, fmt.Sprint(ok))
+			if ok && len(b.Data) > 0 {
+				use(cache.CAS, b.Hash)
+			}
 		case k < 19: // FindMissingBlobs
 			var ds []*pb.Digest
 			for j := 0; j < 1+rng.Intn(5); j++ {
 				b := pool[rng.Intn(len(pool))]
 				ds = append(ds, &pb.Digest{Hash: b.Hash, SizeBytes: int64(len(b.Data))})
 			}
+			asked := map[string]bool{}
+			for _, d := range ds {
+				asked[d.Hash] = true
+			}
 			m, err := c.FindMissingCasBlobs(ctx, ds)
 			record("FindMissing", "", int64(len(ds)), fmt.Sprintf("%d missing %s", len(m), errStr(err)))
+			if err == nil {
+				for _, d := range m {
+					delete(asked, d.Hash)
+				}
+				for h := range asked {
+					use(cache.CAS, h)
+				}
+			}
 		default: // backend fault for a later fetch
 			if proxy != nil {
 				b := pool[rng.Intn(len(pool))]
@@ -389,14 +418,14 @@ func RunSeq(cfg SeqConfig) (*SeqResult, error) {
 			if !rec.WaitIdle(c, 20*time.Second) {
 				return res, fmt.Errorf("remover did not drain within 20s")
 			}
-			s, d, err := rec.Snapshot(c, true, true)
+			s, d, err := rec.SnapshotO(c, true, true, rec.SnapOpts{Used: used})
 			if err != nil {
 				return res, err
 			}
 			res.Quiescent++
 			res.Violations = append(res.Violations, CheckQuiescent(c, s, d, cfg.Hist, i)...)
 		} else {
-			if _, _, err := rec.Snapshot(c, false, false); err != nil {
+			if _, _, err := rec.SnapshotO(c, false, false, rec.SnapOpts{Used: used}); err != nil {
 				return res, err
 			}
 		}
